@@ -63,6 +63,20 @@ def gen_bounds(rng, n, kind, scale=4.0, dy=True):
         W = [val() / 2 for _ in range(n)]
         R = sorted(l + w for l, w in zip(L, W))
         R = [max(r, l) for l, r in zip(L, R)]
+    if kind.startswith("touch") and n >= 2:
+        # partially degenerate: the bounds coincide at some but not all steps
+        mode = kind.split("_")[1] if "_" in kind else rng.choice(["bottom", "top", "both", "prefix", "suffix"])
+        m = rng.randint(1, max(1, n // 3))
+        if mode in ("bottom", "both"):
+            R[0] = L[0]
+        if mode in ("top", "both"):
+            L[-1] = R[-1]
+        if mode == "prefix":
+            for j in range(m):
+                R[j] = L[j]
+        if mode == "suffix":
+            for j in range(n - m, n):
+                L[j] = R[j]
     shift = 0.0
     base = kind if kind in ("pos", "neg", "straddle", "zero_lo", "zero_hi") else rng.choice(["pos", "neg", "straddle", "pos"])
     if base == "pos":
@@ -85,7 +99,8 @@ def gen_bounds(rng, n, kind, scale=4.0, dy=True):
     return L, R
 
 
-KINDS = ["pos", "neg", "straddle", "zero_lo", "zero_hi", "precise", "interval", "steps"]
+KINDS = ["pos", "neg", "straddle", "zero_lo", "zero_hi", "precise", "interval", "steps", "touch"]
+TOUCH = ["touch_bottom", "touch_top", "touch_both", "touch_prefix", "touch_suffix"]
 
 
 def sign_of(L, R):
